@@ -141,5 +141,5 @@ package jet
 //@ frame {C11} stores-global * only-in init, init#1, embedfs.init, httpfs.init, multi.init, utils.init
 
 // Loaders are only ever asked through the Set's lookup path, which hands them canonical paths (C15).
-//@ frame {C15} calls (Loader).Exists only-in (*Set).getTemplateFromLoader, (*multi.Multi).Exists
+//@ frame {C15} calls (Loader).Exists only-in (*Set).getTemplateFromLoader, (*multi.Multi).Exists, (*multi.Multi).Open
 //@ frame {C15} calls (Loader).Open only-in (*Set).loadFromFile, (*multi.Multi).Open
